@@ -12,7 +12,8 @@ LEMMAS = ["M3 facts of below (descendant closure)", "M2' segment facts"]
 
 
 def units(tier):
-    return useractions.units(UA_ALL) + primitives.units(names=["AddEdgeC", "DeleteEdgeC"])
+    from contracts import queries
+    return queries.units() + useractions.units(UA_ALL) + primitives.units(names=["AddEdgeC", "DeleteEdgeC"])
 
 
 def witness(label, failure, seed):
